@@ -32,6 +32,19 @@ NewAct(a, ovf) ==
      IN /\ last' = [op |-> "new", ty |-> a.ty, recv |-> <<>>, p |-> NewAsPartial(a.ty, a.v), ovf |-> ovf, out |-> o]
         /\ cur' = IF o.kind = "ok" THEN [ty |-> a.ty, v |-> o.val] ELSE cur
 
+\* a receiver in a calendar with eras (gregory: ce = years >= 1, bce = 1 - year): a record that supplies era and eraYear - with or without
+\* other fields, but without a year - designates the year through them; everything else is as for `with` on the year so designated
+EraYearOf(era, ey) == IF era = "ce" THEN ey ELSE 1 - ey
+Eras == {"ce", "bce"}
+EraExtras == {"none", "month", "day", "code", "month-day"}
+EraExtra(k, year) == CASE k = "none" -> [year |-> year] [] k = "month" -> [year |-> year, month |-> 2] [] k = "day" -> [year |-> year, day |-> 31]
+                       [] k = "code" -> [year |-> year, monthCode |-> "M02"] [] OTHER -> [year |-> year, month |-> 12, day |-> 1]
+EraAct(era, ey, extra, ovf) ==
+  /\ cur # Nothing /\ cur.ty = "date" /\ cur.v.y \in 1..9999
+  /\ LET p == EraExtra(extra, EraYearOf(era, ey))
+         o == With(cur.ty, cur.v, p, ovf)
+     IN /\ last' = [op |-> "with", ty |-> cur.ty, recv |-> cur.v, p |-> p, ovf |-> ovf, out |-> o, era |-> <<era, ey>>]
+        /\ cur' = IF o.kind = "ok" THEN [ty |-> cur.ty, v |-> o.val] ELSE cur
 Next == /\ (OneStep => last = None)
         /\ \/ \E ovf \in Ovfs : \E p \in PartialsOf(IF cur = Nothing THEN "none" ELSE cur.ty) : WithAct(p, ovf)
            \/ /\ IdentityOn /\ cur # Nothing
@@ -40,6 +53,8 @@ Next == /\ (OneStep => last = None)
            \/ /\ IdentityOn /\ cur # Nothing /\ cur.ty \in {"date", "datetime", "yearmonth"}
               /\ \E ovf \in Ovfs : \E c \in {CodeOf(IF cur.v.m = 12 THEN 1 ELSE cur.v.m + 1), "M02L", "M13"} :
                     WithAct([k \in (DOMAIN OwnFields(cur.ty, cur.v) \cap {"year", "month", "day", "monthCode"}) |-> IF k = "monthCode" THEN c ELSE OwnFields(cur.ty, cur.v)[k]], ovf)
+           \/ /\ IdentityOn /\ cur # Nothing /\ cur.ty = "date"
+              /\ \E ovf \in Ovfs, extra \in EraExtras : \E e \in {<<"ce", cur.v.y>>, <<"ce", 2023>>, <<"ce", 1>>, <<"bce", 1>>, <<"bce", 5>>} : EraAct(e[1], e[2], extra, ovf)
            \/ \E ovf \in Ovfs : \E ty \in FromTypes : \E p \in PartialsOf(ty) : FromAct(ty, p, ovf)
            \/ \E ovf \in Ovfs : \E a \in NewArgs : NewAct(a, ovf)
 Spec == Init /\ [][Next]_vars
